@@ -1,5 +1,6 @@
 import TsVerif.C15.Lemmas
 import TsVerif.C15.Judge
+import TsVerif.C15.Canon
 /-!
 # C15 — Generation is deterministic and table optimisation never changes results
 
@@ -18,9 +19,12 @@ identical trees on every accepted string.
 parser, both dumped from the loaded `TSLanguage` by the runtime's own lookup functions.  The driver
 is the shared `TsVerif.C03.run` (single-version LR driver, port of ts_parser__advance/reduce/accept).
 
-OPEN: the converse simulation (B ⇒ A) does not hold state-by-state (merged states have more
-look-aheads) and is only sampled; `canonicalize_perm` (order-independence of the generator's
-canonicalisation helpers) is not modelled; process-level determinism is sampled.
+| the re-interning of action lists before rendering does not depend on the interning history | `canonicalize_perm` (Canon.lean: hand port of `ActionListPool::canonicalize`) |
+| both directions where a state-wise converse map exists | `tables_equivalent` (`findSim B A` succeeds only for pairs where nothing was merged: reported as `rsim`) |
+
+OPEN: the converse simulation (B ⇒ A) does not hold state-by-state when states were merged (merged
+states have more look-aheads; the argument is the LALR-vs-LR one about extra reductions before an
+error, not a simulation) and is only sampled; process-level determinism is sampled.
 -/
 namespace TsVerif.C15
 open TsVerif.C03
@@ -51,6 +55,14 @@ theorem optimised_preserves_accepted (A B : Table) (f : SMap) (h : findSim A B =
     (toks : List Nat) (t : PTree) (hA : run A toks = .accepted t) : run B toks = .accepted t :=
   sim_preserves A B f (findSim_sound A B f h) toks t hA
 
+/-- The converse direction for the pairs on which a state-wise simulation from the optimised to the
+unoptimised table exists (`findSim B A` succeeds — reported per pair as `rsim`): together with
+`optimised_preserves_accepted` the two tables then accept exactly the same token strings with the
+same trees. -/
+theorem tables_equivalent (A B : Table) (f f' : SMap) (h : findSim A B = some f) (h' : findSim B A = some f')
+    (toks : List Nat) (t : PTree) : run A toks = .accepted t ↔ run B toks = .accepted t :=
+  ⟨optimised_preserves_accepted A B f h toks t, optimised_preserves_accepted B A f' h' toks t⟩
+
 /-! ## non-vacuity: a table with a duplicated state and its merged version -/
 
 /-- `S → a | b`, with two copies (2 and 4) of the state after the token -/
@@ -68,6 +80,8 @@ def tB : Table :=
     lexState := #[0, 0, 0, 0] }
 
 example : (findSim tA tB).isSome = true := by decide
+example : (findSim tB tB).isSome = true := by decide   -- the converse map exists only where nothing was merged (here: tB against itself; `findSim tB tA` fails: state 2 of tB stands for states 2 and 4 of tA)
+example : (findSim tB tA).isSome = false := by decide
 example : simCheck tA tB [(4, 2), (2, 2), (3, 3), (1, 1)] = true := by decide
 example : (match run tA [2], run tB [2] with | .accepted a, .accepted b => a.leaves == b.leaves | _, _ => false) = true := by decide
 /-- a wrong merge (state 4 of `A` reduces 2 children, the merged state 1) is refused -/
